@@ -210,6 +210,8 @@ class FD:
             return env[e.id]
         if e.id in ('True', 'False', 'None'):
             return {'True': True, 'False': False, 'None': None}[e.id]
+        if e.id == 'NotImplemented' and (self.resolver is None or not _resolves(self.resolver, 'NotImplemented')):
+            return NotImplemented
         if self.resolver is not None:
             try:
                 return self.resolver(e.id)
@@ -511,6 +513,10 @@ class FD:
                 return base._fd_class.name
         if isinstance(base, type) and e.attr in ('__name__', '__qualname__'):
             return base.__name__
+        if (base is None or isinstance(base, (int, float, str, bytes, bool, complex))) and not hasattr(base, e.attr) \
+                and self.attr_hook is None:
+            # a concrete value that simply has no such attribute: CPython's answer is AttributeError
+            raise Raised('AttributeError', "'%s' object has no attribute '%s'" % (type(base).__name__, e.attr))
         if self.attr_hook is not None:
             return self.attr_hook(base, e.attr)
         if base is UNKNOWN:
@@ -1723,6 +1729,16 @@ _RE_PATTERN = type(__import__('re').compile(''))
 _RE_MATCH = type(__import__('re').match('', ''))
 _PURE_RE_METHODS = frozenset(('match', 'fullmatch', 'search', 'sub', 'subn', 'split', 'findall', 'finditer', 'group',
                               'groups', 'groupdict', 'start', 'end', 'span'))
+
+
+def _resolves(resolver, name):
+    try:
+        resolver(name)
+        return True
+    except KeyError:
+        return False
+    except Exception:
+        return False
 
 
 def _cached_by_cpython(v):
